@@ -379,7 +379,11 @@ func genC07(w *bufio.Writer, tier string, rng *rand.Rand) {
 			fmt.Fprintf(w, "inv own %s\n", fmtF(y))
 			fmt.Fprintf(w, "rnd ownrand %d\n", rng.Intn(1<<30))
 		default:
-			fmt.Fprintf(w, "rnd normal %s %s %d\n", fmtF(rng.NormFloat64()*100), fmtF(math.Exp(rng.NormFloat64()*3)), rng.Intn(1<<30))
+			sg := math.Exp(rng.NormFloat64() * 3)
+			if rng.Intn(3) == 0 {
+				sg = []float64{1, 1, 2, 0.5}[rng.Intn(4)]
+			}
+			fmt.Fprintf(w, "rnd normal %s %s %d\n", fmtF(rng.NormFloat64()*100), fmtF(sg), rng.Intn(1<<30))
 			fmt.Fprintf(w, "rnd cont t5 %d\n", rng.Intn(1<<30))
 		}
 	}
